@@ -138,6 +138,14 @@ def worker(idx, nworkers, tier, seed, extra):
     scale = {"quick": 1, "thorough": 12}[tier]
     w = DualWsx(mon, rnd)
     try:
+        # process history: three of four executors see a client session with another announced modulus before
+        # anything else (state remembered from the first modulus would show up in the later built-in logins)
+        first = {1: 2, 2: 3, 3: 257}.get(idx % 4)
+        if first:
+            w.kind = "first_session_other_modulus"
+            for g in (3, 7):
+                _raw_client(w, {"user": "First", "pw": "session", "cuser": "First", "cpw": "session", "salt": bytes(32).hex(), "g": g,
+                                "n": M.to_le(first).hex(), "b": M.to_le(5).hex(), "a": c03.rb(rnd, 32).hex(), "Bmode": "honest"})
         # ---- C01 logins: corpus classes, boundary keys (incl. 0), random
         w.kind = "c01"
         for i, e in enumerate(c01.load_corpus()):
@@ -208,6 +216,20 @@ def worker(idx, nworkers, tier, seed, extra):
                         # drive the library call even when the model says the exchange is degenerate: both back ends must agree there too
                         _raw_client(w, sc)
                         mon.count("announced_group_calls")
+        # ---- announced moduli that are not prime (legal inputs of the client API: whatever the server announces)
+        w.kind = "announced_composite_moduli"
+        comps = [4, 6, 8, 9, 10, 15, 16, 21, 255, 256, 65535, 65536, 2 ** 64, 2 ** 255, 3 * 2 ** 200, M.N - 1, M.N + 1,
+                 rnd.getrandbits(256) | (1 << 255), (rnd.getrandbits(128) | 1) * (rnd.getrandbits(120) | 1), rnd.getrandbits(64) * 2]
+        for ci, n_ in enumerate(comps):
+            if ci % nworkers != idx % nworkers and (ci + 7) % nworkers != idx:
+                continue
+            for g in (2, 3, 5, 7, 10):
+                for amode in ("rand", "rand", "one", "zero"):
+                    a = {"rand": c03.rb(rnd, 32), "zero": bytes(32), "one": M.to_le(1)}[amode]
+                    user, pw = c01.rand_cred(rnd), c01.rand_cred(rnd)
+                    _raw_client(w, {"user": user, "pw": pw, "cuser": user, "cpw": pw, "salt": c03.rb(rnd, 32).hex(), "g": g,
+                                    "n": M.to_le(n_).hex(), "b": c03.rb(rnd, 32).hex(), "a": a.hex(), "Bmode": "honest"})
+                    mon.count("composite_modulus_calls")
         # ---- C04: public-key family samples and own-key paths
         w.kind = "c04"
         for i in range(40 * scale):
